@@ -138,4 +138,23 @@ CLAIMED = {
         "note": NOTE_COMMON + "  Processor.get_nodes results are an input of this model.",
         "technique": "Coq proof (frame lemma over identity-addressed targets) + differential correspondence",
     },
+    "C08": {
+        "text": ("17 theorems (Coq, no axioms) over the parser/printer models (the same models C14 ties to the code): "
+                 "C08_parse_render - for every well-formed segment list of every kind (KEY escaped or quoted, index, "
+                 "slice, anchor, all nine search operators with inversion and quoted/escaped terms and regex "
+                 "delimiters, keywords, collectors with nested expressions, * and **) in both notations, parsing the "
+                 "documented rendering gives back exactly the segments; py_int (str_of_Z n) = n for all integers; "
+                 "ensure_escaped characterised as a left-to-right scan; the canonical string re-parses to the same "
+                 "segments in either notation and is a fixed point (guards: wfc, and the property's own exclusion "
+                 "of dot texts that begin with '/'); == iff equal segments (guard no_dot_key = listed finding F23, "
+                 "with _refuted witness); append-then-pop restores the path for tails written after a separator "
+                 "(other tails are judged on the real code only).  Guard wf contains the listed finding F21 "
+                 "(quote-wrapped search terms, _refuted witness).  Side conditions over the regenerated "
+                 "character tables are closed by vm_compute, so editing an escape list in the source re-opens a "
+                 "proof obligation.  Tie: all segment sequences of length <= 2 (quick) / 3 (thorough) over a "
+                 "grammar of every kind, rendered by the reference writer and by str()."),
+        "design_ref": "DESIGN.md section 4 (C08), Appendix B, docs/C08.md",
+        "note": NOTE_COMMON,
+        "technique": "Coq proof (per-token lemmas over the rule-list parser, closed over all 256 characters; induction over segment lists) + differential correspondence",
+    },
 }
